@@ -64,12 +64,25 @@ def _worker(args):
     import importlib
     fn = getattr(importlib.import_module(fn_mod), fn_name)
     fails, n, samples, keys = [], 0, [], set()
+    # watched replays: where this worker is (process, record offset, time) for the parent's watchdog,
+    # and the records already known to hang
+    beat = opts.get("_beat")
+    skip = set(opts.get("_skip") or ())
+    if beat:
+        import time
+        beat = os.path.join(beat, str(start))
     with open(path, "rb") as fd:
         fd.seek(start)
         while fd.tell() < end:
+            at = fd.tell()
             line = fd.readline()
             if not line.strip():
                 continue
+            if at in skip:
+                continue
+            if beat:
+                with open(beat, "w") as hb:
+                    hb.write(f"{os.getpid()} {at} {time.time()}")
             rec = json.loads(line)
             n += 1
             try:
@@ -83,6 +96,11 @@ def _worker(args):
             for sig, detail in res or []:
                 if len(fails) < 200:
                     fails.append((sig, rec, detail))
+    if beat:
+        try:
+            os.unlink(beat)
+        except OSError:
+            pass
     return n, fails, samples, len(keys)
 
 
@@ -92,6 +110,8 @@ def replay_file(chk: Check, path: Path, fn_mod: str, fn_name: str, opts: dict | 
     total = 0
     if not parts:
         return 0
+    if (opts or {}).get("_hang_s"):
+        return _replay_watched(chk, path, parts, fn_mod, fn_name, dict(opts))
     jobs = [(str(path), a, b, fn_mod, fn_name, opts or {}) for a, b in parts]
     with ProcessPoolExecutor(workers()) as ex:
         for n, fails, samples, nkeys in ex.map(_worker, jobs):
@@ -103,5 +123,81 @@ def replay_file(chk: Check, path: Path, fn_mod: str, fn_name: str, opts: dict | 
                     chk.cov["samples"].append(s)
             for sig, rec, detail in fails:
                 chk.violation(sig, {"record": rec, "failure": detail})
+    chk.validated(total)
+    return total
+
+
+def _replay_watched(chk: Check, path: Path, parts, fn_mod: str, fn_name: str, opts: dict) -> int:
+    """replay_file under a watchdog: a record whose evaluation does not return within opts["_hang_s"] seconds
+    (a C-level loop cannot be interrupted from inside the process) is reported as `hang`, its worker is killed,
+    and the unfinished parts are replayed again without it."""
+    import shutil
+    import tempfile
+    import time
+    from concurrent.futures import wait, FIRST_COMPLETED
+    from .common import SCRATCH
+    hang_s = opts.pop("_hang_s")
+    SCRATCH.mkdir(parents=True, exist_ok=True)
+    beatdir = tempfile.mkdtemp(prefix="beat-", dir=SCRATCH)
+    pending = list(parts)
+    skip: set = set()
+    total = hangs = 0
+    try:
+        while pending:
+            ex = ProcessPoolExecutor(workers())
+            futs = {ex.submit(_worker, (str(path), a, b, fn_mod, fn_name, dict(opts, _beat=beatdir, _skip=sorted(skip)))): (a, b) for a, b in pending}
+            done_parts = set()
+            killed = False
+            live = set(futs)
+            while live and not killed:
+                done, live = wait(live, timeout=2, return_when=FIRST_COMPLETED)
+                for f in done:
+                    try:
+                        n, fails, samples, nkeys = f.result()
+                    except Exception:  # noqa: BLE001     (the pool broke: replayed in the next round)
+                        continue
+                    done_parts.add(futs[f])
+                    total += n
+                    chk.cov["evaluations"] += n
+                    chk.add_distinct(nkeys)
+                    for smp in samples:
+                        if len(chk.cov["samples"]) < 6:
+                            chk.cov["samples"].append(smp)
+                    for sig, rec, detail in fails:
+                        chk.violation(sig, {"record": rec, "failure": detail})
+                now = time.time()
+                for name in os.listdir(beatdir):
+                    try:
+                        pid, at, t = open(os.path.join(beatdir, name)).read().split()
+                    except (OSError, ValueError):
+                        continue
+                    if now - float(t) > hang_s:
+                        with open(path, "rb") as fd:
+                            fd.seek(int(at))
+                            rec = json.loads(fd.readline())
+                        hangs += 1
+                        chk.violation(f"hang:{rec.get('focus', '')}", {"record": rec, "failure": {"seconds": round(now - float(t)), "note": "evaluation did not return"}})
+                        skip.add(int(at))
+                        try:
+                            os.kill(int(pid), 9)
+                        except OSError:
+                            pass
+                        killed = True
+            for proc in list(getattr(ex, "_processes", {}).values()):
+                try:
+                    proc.kill()
+                except Exception:  # noqa: BLE001
+                    pass
+            ex.shutdown(wait=False, cancel_futures=True)
+            for name in os.listdir(beatdir):
+                try:
+                    os.unlink(os.path.join(beatdir, name))
+                except OSError:
+                    pass
+            pending = [p for p in pending if p not in done_parts]
+            if hangs >= 6:
+                break       # enough said; the rest of this file is not replayed
+    finally:
+        shutil.rmtree(beatdir, ignore_errors=True)
     chk.validated(total)
     return total
